@@ -285,8 +285,14 @@ package jsonrpc2
 //@   abstract
 //@   params msg, to
 //@   modifies all(to)
-//@ func toWireError [C19]
+// toWireError: nil stays nil, a wire error is passed through, any other error keeps its message and takes the code
+// of the wire error it wraps - found with errors.As, which follows every %w branch (joined and multi-%w errors too).
+//@ func toWireError [C19, C02]
+//@   track errors.As as findWrapped
 //@   modifies extern
+//@   ensures @nil-stays-nil err == nil ==> result == nil
+//@   ensures @wire-errors-pass-through typeIs(err, *WireError) ==> result == err.(*WireError)
+//@   ensures @other-errors-look-up-their-wrapped-code err != nil && !typeIs(err, *WireError) ==> result != nil && calls(findWrapped) == 1 && callArg(findWrapped, 1, 0) == err
 
 // EncodeMessage only reads the message (frame checked): it fills a local wire struct and marshals it.
 //@ func EncodeMessage [C19, C10, C08]
